@@ -506,6 +506,21 @@ func ruleKMeansShape(r *Run, p string) {
 		r.Unres(p+".KCLAMP", "kmeans", "k-means routine not found")
 		return
 	}
+	// which parameters are the input rows and k: read off the exported wrapper, whose signature the tests pin
+	vecIdx, kIdx := 0, 1
+	if wr := w.Fn("KMeans"); wr != nil && len(wr.Params) >= 2 {
+		for _, call := range callsIn(wr, func(cc *ssa.CallCommon) bool { return staticCallee(cc) == fn }) {
+			for i, arg := range call.Common().Args {
+				switch arg {
+				case ssa.Value(wr.Params[0]):
+					vecIdx = i
+				case ssa.Value(wr.Params[1]):
+					kIdx = i
+				}
+			}
+		}
+	}
+	pK, pN := fmt.Sprintf("P%d", kIdx), fmt.Sprintf("len(P%d)", vecIdx)
 	name := w.Name(fn)
 	r.Analysed(name)
 	r.Doc(p+".KCLAMP", "k-means returns another number of centroids than min(k, n), or panics for k > n")
@@ -540,9 +555,9 @@ func ruleKMeansShape(r *Run, p string) {
 				return "0"
 			}
 			switch c.S(v) {
-			case "P1":
+			case pK:
 				return "k"
-			case "len(P0)":
+			case pN:
 				return "n"
 			}
 			return ""
@@ -613,12 +628,26 @@ func ruleKMeansShape(r *Run, p string) {
 				cc := NewCanon(w)
 				cc.PhiEdge = pth.PhiEdge
 				switch cc.S(cent.Len) {
-				case "P1":
+				case pK:
 					outs["k"] = true
-				case "len(P0)":
+				case pN:
 					outs["n"] = true
 				default:
-					outs["other:"+cc.S(cent.Len)] = true
+					// a clamp written with the min / max builtins: decided by the order in force
+					known := true
+					syms := evalOrderSym(cent.Len, pth, symOf, rank, 0)
+					for _, sy := range syms {
+						if sy != "k" && sy != "n" {
+							known = false
+						}
+					}
+					if known && len(syms) > 0 {
+						for _, sy := range syms {
+							outs[sy] = true
+						}
+					} else {
+						outs["other:"+cc.S(cent.Len)] = true
+					}
 				}
 			}
 		}
@@ -656,11 +685,34 @@ func ruleKMeansShape(r *Run, p string) {
 							}
 						}
 					}
+					// for i := range centroids: the range index runs to len(centroids)
+					if isRangeIndex(ia.Index) {
+						var rph *ssa.Phi
+						switch y := ia.Index.(type) {
+						case *ssa.Phi:
+							rph = y
+						case *ssa.BinOp:
+							rph, _ = y.X.(*ssa.Phi)
+						}
+						if rph != nil {
+							for _, e := range rph.Edges {
+								if inc, isInc := e.(*ssa.BinOp); isInc {
+									for _, ref := range *inc.Referrers() {
+										if bo, ok := ref.(*ssa.BinOp); ok && bo.Op == token.LSS {
+											if lc, isCall := bo.Y.(*ssa.Call); isCall && len(lc.Call.Args) == 1 && lc.Call.Args[0] == ssa.Value(cent) {
+												okInit = true
+											}
+										}
+									}
+								}
+							}
+						}
+					}
 				}
 			}
 		case *ssa.Call:
 			if b, ok := x.Call.Value.(*ssa.Builtin); ok && b.Name() == "copy" {
-				if p := paramRoot(x.Call.Args[1]); p != nil && paramIndex(p) == 0 {
+				if p := paramRoot(x.Call.Args[1]); p != nil && paramIndex(p) == vecIdx {
 					if ld, ok := x.Call.Args[0].(*ssa.UnOp); ok {
 						if ia, ok := ld.X.(*ssa.IndexAddr); ok && ia.X == ssa.Value(cent) {
 							okCopy = true
@@ -675,7 +727,7 @@ func ruleKMeansShape(r *Run, p string) {
 	okAssign := false
 	allInstrs(fn, func(in ssa.Instruction) {
 		if st, ok := in.(*ssa.Store); ok {
-			if ia, ok := st.Addr.(*ssa.IndexAddr); ok && isRangeIndex(ia.Index) {
+			if ia, ok := st.Addr.(*ssa.IndexAddr); ok && isAllIndex(ia.Index) {
 				_, isPhi := st.Val.(*ssa.Phi)
 				if vi, ok := st.Val.(ssa.Instruction); ok && callsArgmin(w, vi) {
 					isPhi = true // the index returned by the nearest-centroid routine
@@ -1043,4 +1095,38 @@ func ruleKMeansUpdate(r *Run, rule string) {
 	})
 	r.Check(okDiv, rule, "kmeans:mean", site, "centroid component = sum / float32(size)", "the centroid update is not sum/size")
 	r.Check(other == "", rule, "kmeans:empty-keeps", site, "inside the iteration loop a centroid component is only ever written as the mean sum/size of its cluster (an empty cluster keeps its centroid, no re-seeding)", "a centroid is written with something else than its cluster's mean inside the iteration loop at "+other)
+}
+
+// evalOrderSym: the symbol(s) a value denotes on a path under a weak order of the symbols: phis resolved along the path,
+// the min / max builtins decided by the order in force (both operands when they are equal). "" = not a symbol.
+func evalOrderSym(v ssa.Value, pth *Path, symOf func(ssa.Value) string, rank map[string]int, depth int) []string {
+	v = resolveOnPath(pth, v)
+	if sy := symOf(v); sy != "" || depth > 4 {
+		return []string{sy}
+	}
+	if call, ok := v.(*ssa.Call); ok {
+		if b, isB := call.Call.Value.(*ssa.Builtin); isB && (b.Name() == "min" || b.Name() == "max") && len(call.Call.Args) == 2 {
+			as, bs := evalOrderSym(call.Call.Args[0], pth, symOf, rank, depth+1), evalOrderSym(call.Call.Args[1], pth, symOf, rank, depth+1)
+			var out []string
+			for _, a := range as {
+				for _, bb := range bs {
+					if a == "" || bb == "" {
+						out = append(out, "")
+						continue
+					}
+					ra, rb := rank[a], rank[bb]
+					switch {
+					case ra == rb:
+						out = append(out, a, bb)
+					case (ra < rb) == (b.Name() == "min"):
+						out = append(out, a)
+					default:
+						out = append(out, bb)
+					}
+				}
+			}
+			return out
+		}
+	}
+	return []string{""}
 }
